@@ -361,6 +361,15 @@ func systematicPkgCases(id *int, profile, scratch string, rng *rand.Rand, tier s
 				add(c, smallTree(), "typetag-docdir")
 			}
 		}
+		// a directory as the source of a file entry: with a destination that ends in a slash every file found below it goes
+		// directly into that directory; without the slash the structure is kept
+		for _, d := range []string{"/usr/share/flatpkg/", "/usr/share/flatpkg"} {
+			for _, ty := range []string{"file", "config"} {
+				c := baseCfg("flatpkg")
+				c.Entries = []Entry{plain, {Type: ty, Src: "src/sub", Dst: d}}
+				add(c, smallTree(), "dir-source")
+			}
+		}
 		// typed entries whose source is itself a symbolic link to a file
 		for _, ty := range []string{"doc", "licence", "license", "readme", "config", "config|noreplace", "file"} {
 			c := baseCfg("lnksrcpkg")
